@@ -6,6 +6,6 @@ CONSTANTS
   Bursts = {1, 127, 130}
   MaxPk = 100000
   ReadAfterClose = "panic"
-  Depth = 4
+  Depth = 3
 INVARIANT Emit
 CHECK_DEADLOCK FALSE
